@@ -804,3 +804,152 @@ Proof.
   split; [vm_compute; reflexivity|]. split; [vm_compute; reflexivity|].
   split; [intros E; vm_compute in E; discriminate|]. split; vm_compute; reflexivity.
 Qed.
+
+(* ==========================================================================================
+   Wave 6.  Proofs: Abi/EntryWave6.v.
+   ========================================================================================== *)
+From FFS Require Abi.EntryWave6 Abi.DecProofs4.
+
+(* 18. The decode direction of call data on the SPECIFICATION encoding alone: every byte string
+       selector(e) ++ enc((T1..Tn), v) ++ post  for a well-typed value v -- whoever produced it; there
+       is no encoder model in the statement, hence none of C02's guards (typed_as, values_ok,
+       weight_ok < 2^248) -- is decoded by e to the tree of v, which denotes v.  Remaining guards =
+       C03's quantifier only.  Trailing bytes [post] are ignored (as in abi.go). *)
+Theorem C12_calldata_decode_spec :
+  forall (H : bytes -> bytes), (forall m, List.length (H m) = 32%nat) ->
+  forall (e : entry) (cs : list tcomp) (v : Abi.Spec.val) (post : bytes),
+    tree_children (e_inputs e) = Ok cs -> all_suffix_canonical cs ->
+    let tc := TCTuple cs [] in
+    tc_wf tc = true -> tc_no_fixed_point tc = true -> tc_no_zero_len tc = true ->
+    Abi.Spec.well_typed (ty_of tc) v = true ->
+    (Abi.DecModel.zlen (Abi.Spec.enc (ty_of tc) v) < 2 ^ 32)%Z -> Abi.DecProofs3.counts_ok v = true ->
+    DecodeCallData H Abi.DecModel.DecodeABIData e
+      (selector_spec H (e_name e) (map ty_of cs) ++ Abi.Spec.enc (TTuple (map ty_of cs)) v ++ post)
+    = Ok (Abi.DecSpec.cv_of tc v) /\
+    val_of (Abi.DecSpec.cv_of tc v) = v.
+Proof. exact Abi.EntryWave6.calldata_decode_spec. Qed.
+Print Assumptions C12_calldata_decode_spec.
+
+(* 19. Revert data WITHOUT the guard "no earlier error definition has the same selector" of 13c, and
+       without the encoder-side guards.  [err_def_ok e'] (Abi/EntryWave6.v) is a condition on the
+       definition only: its parameters have type trees cs' with canonical suffix texts, TCTuple cs' is
+       tc_wf, without fixed-point and T[0] members (C03's quantifier), the name has no '(' and the
+       types are valid (guards of C12_signature_injective).  For an ABI all of whose ERROR definitions
+       are such, any error definition e of (Error(string) :: ABI) -- at any position, with duplicates,
+       same-signature definitions under other parameter names and same-selector definitions allowed
+       before it -- and any well-typed argument value v:  d = selector(e) ++ enc(types(e), v) ++ post
+       is attributed to a definition e1 no earlier error definition of which has e's signature, and
+         EITHER e1 has e's name and parameter types and the arguments are exactly the tree of v
+                (e1 is the FIRST error definition with e's signature: e itself unless duplicated),
+         OR     e1 has a different signature string s1 and the hash collides with e's signature on
+                its first four bytes (then the code cannot tell them apart). *)
+Theorem C12_error_roundtrip_spec :
+  forall (H : bytes -> bytes), (forall m, List.length (H m) = 32%nat) ->
+  forall (a : list entry) (e : entry) (cs : list tcomp) (v : Abi.Spec.val) (post : bytes),
+    (forall e', In e' a -> e_type e' = TyError -> Abi.EntryWave6.err_def_ok e') ->
+    In e (default_error :: a) -> e_type e = TyError -> tree_children (e_inputs e) = Ok cs ->
+    Abi.Spec.well_typed (TTuple (map ty_of cs)) v = true ->
+    (Abi.DecModel.zlen (Abi.Spec.enc (TTuple (map ty_of cs)) v) < 2 ^ 32)%Z -> Abi.DecProofs3.counts_ok v = true ->
+    let n := e_name e in let ts := map ty_of cs in
+    let d := selector_spec H n ts ++ Abi.Spec.enc (TTuple ts) v ++ post in
+    exists pre e1 post1 v1,
+      default_error :: a = pre ++ e1 :: post1 /\ e_type e1 = TyError /\
+      ParseError H Abi.DecModel.DecodeABIData a d = Ok (Some (e1, v1)) /\
+      (forall e', In e' pre -> e_type e' = TyError -> Signature e' <> Ok (signature_spec n ts)) /\
+      ((exists cs1, tree_children (e_inputs e1) = Ok cs1 /\ e_name e1 = n /\ map ty_of cs1 = ts /\
+                    v1 = Abi.DecSpec.cv_of (TCTuple cs1 []) v /\ val_of v1 = v)
+       \/
+       (exists s1, Signature e1 = Ok s1 /\ s1 <> signature_spec n ts /\
+                   firstn 4 (H s1) = firstn 4 (H (signature_spec n ts)))).
+Proof. exact Abi.EntryWave6.error_roundtrip_spec. Qed.
+Print Assumptions C12_error_roundtrip_spec.
+
+(* 19b. The collision alternative excluded by the minimal hypothesis on the hash: no error definition
+        of (Error(string) :: ABI) with another signature string agrees with e's signature on the first
+        four hash bytes.  Then the data is attributed to the first error definition with e's name and
+        parameter types, with exactly the emitted values. *)
+Theorem C12_error_roundtrip_no_collision :
+  forall (H : bytes -> bytes), (forall m, List.length (H m) = 32%nat) ->
+  forall (a : list entry) (e : entry) (cs : list tcomp) (v : Abi.Spec.val) (post : bytes),
+    (forall e', In e' a -> e_type e' = TyError -> Abi.EntryWave6.err_def_ok e') ->
+    In e (default_error :: a) -> e_type e = TyError -> tree_children (e_inputs e) = Ok cs ->
+    Abi.Spec.well_typed (TTuple (map ty_of cs)) v = true ->
+    (Abi.DecModel.zlen (Abi.Spec.enc (TTuple (map ty_of cs)) v) < 2 ^ 32)%Z -> Abi.DecProofs3.counts_ok v = true ->
+    let n := e_name e in let ts := map ty_of cs in
+    (forall e' s', In e' (default_error :: a) -> e_type e' = TyError -> Signature e' = Ok s' ->
+                   s' <> signature_spec n ts -> firstn 4 (H s') <> firstn 4 (H (signature_spec n ts))) ->
+    let d := selector_spec H n ts ++ Abi.Spec.enc (TTuple ts) v ++ post in
+    exists pre e1 post1 cs1,
+      default_error :: a = pre ++ e1 :: post1 /\ e_type e1 = TyError /\
+      tree_children (e_inputs e1) = Ok cs1 /\ e_name e1 = n /\ map ty_of cs1 = ts /\
+      (forall e', In e' pre -> e_type e' = TyError -> Signature e' <> Ok (signature_spec n ts)) /\
+      ParseError H Abi.DecModel.DecodeABIData a d = Ok (Some (e1, Abi.DecSpec.cv_of (TCTuple cs1 []) v)) /\
+      val_of (Abi.DecSpec.cv_of (TCTuple cs1 []) v) = v.
+Proof. exact Abi.EntryWave6.error_roundtrip_no_collision. Qed.
+Print Assumptions C12_error_roundtrip_no_collision.
+
+(* non-vacuity: an ABI with a function, error Insufficient(uint256 need), a DUPLICATE under another
+   parameter name Insufficient(uint256 other) and a second error Other(string); revert data built for
+   the duplicate (the third entry) with trailing bytes: every hypothesis of 19 / 19b holds (toyH has no
+   4-byte collision among the four error signatures), and the model attributes the data to the FIRST
+   Insufficient definition with the value 5 *)
+Example C12_error_roundtrip_spec_nonvacuous :
+  let ins1 := mkEntry TyError (Sb "Insufficient") false [mkParam (Some (tU256 "need")) false] in
+  let ins2 := mkEntry TyError (Sb "Insufficient") false [mkParam (Some (tU256 "other")) false] in
+  let oth := mkEntry TyError (Sb "Other") false [mkParam (Some (tStr "why")) false] in
+  let a := [ex_transfer; ins1; ins2; oth] in
+  let cs := [tU256 "other"] in
+  let v := Abi.Spec.VList [Abi.Spec.VNum 5] in
+  let post := [xde; xad] in
+  let sig := signature_spec (e_name ins2) (map ty_of cs) in
+  (forall e', In e' a -> e_type e' = TyError -> Abi.EntryWave6.err_def_ok e') /\
+  In ins2 (default_error :: a) /\ tree_children (e_inputs ins2) = Ok cs /\
+  Abi.Spec.well_typed (TTuple (map ty_of cs)) v = true /\
+  (Abi.DecModel.zlen (Abi.Spec.enc (TTuple (map ty_of cs)) v) < 2 ^ 32)%Z /\ Abi.DecProofs3.counts_ok v = true /\
+  (forall e' s', In e' (default_error :: a) -> e_type e' = TyError -> Signature e' = Ok s' ->
+                 s' <> sig -> firstn 4 (toyH s') <> firstn 4 (toyH sig)) /\
+  (exists v1, ParseError toyH DecModel.DecodeABIData a
+                (selector_spec toyH (e_name ins2) (map ty_of cs) ++ Abi.Spec.enc (TTuple (map ty_of cs)) v ++ post)
+              = Ok (Some (ins1, v1)) /\ val_of v1 = v) /\
+  ins1 <> ins2.
+Proof.
+  cbv zeta.
+  assert (OK : forall n k (c : tcomp), (c = tU256 k \/ c = tStr k) -> AbiType.ProofsArr.no_byte x28 (Sb n) ->
+               Abi.EntryWave6.err_def_ok (mkEntry TyError (Sb n) false [mkParam (Some c) false])).
+  { intros n k c Hc Hn. exists [c]. split; [reflexivity|].
+    destruct Hc as [-> | ->]; (split; [cbn; repeat split; vm_compute; reflexivity|]);
+      (split; [vm_compute; reflexivity|]); (split; [vm_compute; reflexivity|]); (split; [vm_compute; reflexivity|]);
+      (split; [exact Hn|vm_compute; reflexivity]). }
+  split.
+  { intros e' [<-|[<-|[<-|[<-|[]]]]] Ht; [discriminate| | |].
+    - apply (OK "Insufficient"%string "need"%string); [left; reflexivity|repeat constructor].
+    - apply (OK "Insufficient"%string "other"%string); [left; reflexivity|repeat constructor].
+    - apply (OK "Other"%string "why"%string); [right; reflexivity|repeat constructor]. }
+  split; [right; right; right; left; reflexivity|]. split; [reflexivity|].
+  split; [vm_compute; reflexivity|]. split; [vm_compute; reflexivity|]. split; [vm_compute; reflexivity|].
+  split.
+  { intros e' s' Hin Ht Hs Hne. destruct Hin as [<-|[<-|[<-|[<-|[<-|[]]]]]];
+      [ |discriminate Ht| | | ]; vm_compute in Hs; injection Hs as <-;
+      first [exfalso; apply Hne; vm_compute; reflexivity|vm_compute; intro E; discriminate E]. }
+  split; [eexists; split; vm_compute; reflexivity|].
+  intros E. vm_compute in E. discriminate.
+Qed.
+
+(* non-vacuity of 18: the guards hold for transfer(address,uint256) with a value tree given as a bare
+   specification value, and the data need not come from the encoder model *)
+Example C12_calldata_decode_spec_nonvacuous :
+  let cs := [tAddr "to"; tU256 "amount"] in
+  let v := Abi.Spec.VList [Abi.Spec.VNum 255; Abi.Spec.VNum 1000] in
+  tree_children (e_inputs ex_transfer) = Ok cs /\ all_suffix_canonical cs /\
+  tc_wf (TCTuple cs []) = true /\ tc_no_fixed_point (TCTuple cs []) = true /\ tc_no_zero_len (TCTuple cs []) = true /\
+  Abi.Spec.well_typed (ty_of (TCTuple cs [])) v = true /\
+  (Abi.DecModel.zlen (Abi.Spec.enc (ty_of (TCTuple cs [])) v) < 2 ^ 32)%Z /\ Abi.DecProofs3.counts_ok v = true /\
+  exists r, DecodeCallData toyH DecModel.DecodeABIData ex_transfer
+              (selector_spec toyH (e_name ex_transfer) (map ty_of cs) ++ Abi.Spec.enc (TTuple (map ty_of cs)) v ++ [x01; x02; x03])
+            = Ok r /\ val_of r = v.
+Proof.
+  cbv zeta. split; [reflexivity|]. split; [cbn; repeat split; vm_compute; reflexivity|].
+  split; [vm_compute; reflexivity|]. split; [vm_compute; reflexivity|]. split; [vm_compute; reflexivity|].
+  split; [vm_compute; reflexivity|]. split; [vm_compute; reflexivity|]. split; [vm_compute; reflexivity|].
+  eexists. split; vm_compute; reflexivity.
+Qed.
